@@ -141,48 +141,71 @@ theorem getc_m (s : IS) (c : Byte) :
   obtain ⟨s', o⟩ := g
   cases o <;> simpa using this
 
-theorem commentLoop_m (iters : Nat) : ∀ (s : IS) (c : Byte) (len steps : Nat),
-    (commentLoop iters s c len steps).2.1.m ≤ s.m := by
-  induction iters with
-  | zero => intro s c len steps; simp [commentLoop]
-  | succ n ih =>
-    intro s c len steps
-    unfold commentLoop
-    have h1 := get_m s
-    generalize s.get = g at h1 ⊢
-    obtain ⟨s1, o⟩ := g
-    have key : ∀ c1 : Byte, (if c1 = chStar then
-          (match (match s1.get with | (s', some c') => (s', c') | (s', none) => (s', c1)) with
-            | (s2, c2) => if c2 = chSlash then (some (), s2, c2, len, steps + 1)
-                          else commentLoop n (s2.putback c2) c2 (len + 1) (steps + 1))
-        else commentLoop n s1 c1 (len + 1) (steps + 1)).2.1.m ≤ s.m := by
-      intro c1
-      simp only [] at h1
-      split
-      · have h2 := get_m s1
-        generalize s1.get = g2 at h2 ⊢
-        obtain ⟨s2, o2⟩ := g2
-        have key2 : ∀ c2 : Byte, (if c2 = chSlash then (some (), s2, c2, len, steps + 1)
-              else commentLoop n (s2.putback c2) c2 (len + 1) (steps + 1)).2.1.m ≤ s.m := by
-          intro c2
-          simp only [] at h2
-          split
-          · simp; omega
-          · have := ih (s2.putback c2) c2 (len + 1) (steps + 1)
-            have hp := putback_m s2 c2
-            rcases h2 with h2 | h2
-            · omega
-            · have := putback_m_zero s2 c2 h2
-              omega
-        cases o2 with
-        | none => exact key2 c1
-        | some c2 => exact key2 c2
-      · have := ih s1 c1 (len + 1) (steps + 1)
-        omega
-    cases o with
-    | none => exact key c
-    | some c1 => exact key c1
+theorem m_zero_not_good {s : IS} (h : s.m = 0) : s.good = false := by
+  obtain ⟨pre, rest, eof, fail, sk⟩ := s
+  cases fail <;> simp_all [IS.m, IS.good]
 
+theorem left_le {left limit : Nat} (g : Bool) (h : left ≤ limit) : (if (left - 1 = 0 && g) = true then limit else left - 1) ≤ limit := by
+  split <;> omega
+
+theorem left_dead {left limit : Nat} {g : Bool} (hl : left ≠ 0) (hg : g = false) :
+    (if (left - 1 = 0 && g) = true then limit else left - 1) + 1 ≤ left := by
+  subst hg; simp; omega
+
+/-- the comment loop ends (fuel: the bytes left, plus the limit once the stream has failed) and never un-reads -/
+theorem commentLoop_m (limit : Nat) : ∀ (fuel left : Nat) (s : IS) (c : Byte) (len steps : Nat), left ≤ limit →
+    s.m + (if s.m = 0 then left else limit + 1) + 1 ≤ fuel →
+    ∃ o s' c' len' st', commentLoop limit fuel left s c len steps = .ok (o, s', c', len', st') ∧ s'.m ≤ s.m := by
+  intro fuel
+  induction fuel with
+  | zero => intro left s c len steps _ h; omega
+  | succ f ih =>
+    intro left s c len steps hle h
+    unfold commentLoop
+    by_cases hl0 : left = 0
+    · simp only [hl0, if_true]
+      exact ⟨_, _, _, _, _, rfl, Nat.le_refl _⟩
+    · simp only [hl0, if_false]
+      -- a continuation on `t`: reached by net consumption ≥ 1, or failed (then, if `s` had failed already, with one iteration less left)
+      have cont : ∀ (t : IS) (c' : Byte) (l left' : Nat), left' ≤ limit →
+          (t.m + 1 ≤ s.m ∨ (t.m = 0 ∧ (s.m = 0 → left' + 1 ≤ left))) →
+          ∃ o s' c'' len' st', commentLoop limit f left' t c' l (steps + 1) = .ok (o, s', c'', len', st') ∧ s'.m ≤ s.m := by
+        intro t c' l left' hl' ht
+        have hf : t.m + (if t.m = 0 then left' else limit + 1) + 1 ≤ f := by
+          by_cases hs : s.m = 0
+          · simp only [hs, if_true] at h
+            rcases ht with ht | ⟨ht0, hd⟩
+            · omega
+            · have := hd hs
+              simp only [ht0, if_true]; omega
+          · simp only [hs, if_false] at h
+            rcases ht with ht | ⟨ht0, _⟩
+            · by_cases ht0 : t.m = 0
+              · simp only [ht0, if_true]; omega
+              · simp only [ht0, if_false]; omega
+            · simp only [ht0, if_true]; omega
+        obtain ⟨o, s', c'', l', st', he, hm⟩ := ih left' t c' l (steps + 1) hl' hf
+        exact ⟨o, s', c'', l', st', he, by rcases ht with ht | ⟨ht0, _⟩ <;> omega⟩
+      have h1 := get_m s
+      split
+      · have h2 := get_m (s.get).1
+        split
+        · exact ⟨_, _, _, _, _, rfl, by rcases h1 with h1 | h1 <;> rcases h2 with h2 | h2 <;> omega⟩
+        · have hp := putback_m ((s.get).1.get).1 (((s.get).1.get).2.getD chStar)
+          apply cont _ _ _ _ (left_le _ hle)
+          by_cases hz : (((s.get).1.get).1.putback (((s.get).1.get).2.getD chStar)).m = 0
+          · right
+            refine ⟨hz, fun _ => left_dead hl0 (m_zero_not_good hz)⟩
+          · left
+            rcases h2 with h2 | h2
+            · rcases h1 with h1 | h1
+              · omega
+              · exfalso; omega
+            · exfalso; exact hz (putback_m_zero _ _ h2)
+      · apply cont _ _ _ _ (left_le _ hle)
+        rcases h1 with h1 | h1
+        · left; exact h1
+        · right; exact ⟨h1, fun _ => left_dead hl0 (m_zero_not_good h1)⟩
 
 theorem readCommentWith_comment (skip : IS → Out LoopRes) (iters : Nat) {s : IS} {r0 : List Byte}
     (hf : s.fail = false) (he : s.eof = false) (hr : s.rest = chSlash :: chStar :: r0)
@@ -195,9 +218,9 @@ theorem readCommentWith_comment (skip : IS → Out LoopRes) (iters : Nat) {s : I
   have hsp := skipSpaces_len (chStar :: chSlash :: pre) r0
   generalize hg : IS.skipSpaces (chStar :: chSlash :: pre) r0 = sp at hsp
   obtain ⟨p, r⟩ := sp
-  have hcl := commentLoop_m iters ⟨p, r, r.isEmpty, false, sk⟩ chStar 0 0
-  generalize hc : commentLoop iters ⟨p, r, r.isEmpty, false, sk⟩ chStar 0 0 = cl at hcl
-  obtain ⟨o, s3, c3, len, steps⟩ := cl
+  have hm2 : (⟨p, r, r.isEmpty, false, sk⟩ : IS).m = r.length + 1 := by simp [IS.m]
+  obtain ⟨o, s3, c3, len, steps, hc, hcl⟩ := commentLoop_m iters (r.length + iters + 3) iters ⟨p, r, r.isEmpty, false, sk⟩ chStar 0 0
+    (Nat.le_refl _) (by rw [hm2]; simp; omega)
   have hs3 : s3.m ≤ r0.length + 1 := by simp [IS.m] at hcl hsp ⊢; omega
   cases sk <;> simp [readCommentWith, IS.ws, IS.good, IS.skipSpaces, h1, IS.extract, IS.get, hg, hc]
   all_goals (
